@@ -74,6 +74,14 @@ def translate (s : Str) (t : Table) : Outcome Str :=
   else if byteLen s = 0 then .err
   else .ok (translateCore t s)
 
+/-- the complete in-frame codons of a string (spec vocabulary: what `Translate` should read) -/
+def chunks3 : Str → List Str
+  | a :: b :: c :: rest => [a, b, c] :: chunks3 rest
+  | _ => []
+
+/-- the residue string the table assigns to one codon, case-insensitively ("" when it lists none) -/
+def aaOf (t : Table) (codon : Str) : Str := mapGetStr (translationMap t) (upper codon)
+
 /-! ### well-formedness of a table (decidable; the hypothesis of the C06 / C07 theorems) -/
 
 def bases : List Char := ['T', 'C', 'A', 'G']
